@@ -21,8 +21,9 @@ theorem out_is_take (hist mb : Bytes) (c : Nat) : hist ++ mb.take c = (hist ++ m
 the decoder stands `ins` literals before `pos` (`pos` = text length there), the ring buffer holds
 the text, the match is a copy in the sense of `match_sound_*`. -/
 theorem emit_copy (w : WordOracle) (np nd window : Nat) (hp : np ≤ 3) (hnd : nd ≤ 120)
-    (data : ByteArray) (k : Nat) (hist mb : Bytes) (lo : Nat)
-    (hv : RingView data k (hist ++ mb) lo (hist.length + mb.length))
+    (data : ByteArray) (k tail : Nat) (hist mb : Bytes) (lo : Nat)
+    (hv : RingView data k tail (hist ++ mb) lo (hist.length + mb.length)) (htail : tail ≤ 2 ^ k)
+    (hmt : mb.length ≤ tail)
     (d : DecSt) (hout : d.out = hist ++ mb.take d.cursor) (hcur : d.cursor ≤ mb.length)
     (pos ins : Nat) (hpos : pos = hist.length + d.cursor + ins) (sr : SR)
     (c0 c1 c2 c3 : Int) (rest : List Int) (hring : d.ring = [c0, c1, c2, c3])
@@ -40,7 +41,7 @@ theorem emit_copy (w : WordOracle) (np nd window : Nat) (hp : np ≤ 3) (hnd : n
     rw [hout, List.length_append, List.length_take]; omega
   have hposd : pos = d.out.length + ins := by rw [hlenout]; exact hpos
   have hdle : sr.distance ≤ pos := Nat.le_trans hdw (Nat.min_le_left _ _)
-  have htext := ring_match_is_text_match hv hdle hlo (by rw [hpos]; omega) hag
+  have htext := ring_match_is_text_match hv htail hdle hlo (by rw [hpos]; omega) (by omega) hag
   have hpre : d.out ++ (mb.drop d.cursor).take (ins + sr.len) = hist ++ mb.take (d.cursor + (ins + sr.len)) := by
     rw [hout]; exact out_extend hist mb d.cursor (ins + sr.len)
   have hpre' : hist ++ mb.take (d.cursor + (ins + sr.len))
